@@ -33,6 +33,8 @@ SEQ_STREAM = "zvt::sequences::Sequence::into_stream"
 
 def inner_path(e):
     e = strip_ref(e)
+    if e[0] == "proj" and strip_ref(e[1])[0] in ("var", "path") and tuple(e[2])[-1:] == ("inner",):
+        return True         # the slot through a borrowed binding (`self.inner` of an inlined `&mut self` helper)
     return e[0] == "path" and e[2][-1:] == ("inner",)          # the connection slot of the TcpStream argument (any name)
 
 
@@ -189,6 +191,14 @@ def retry(chk, crate):
                 if slot != "S":
                     out.append((t["else"], failed, "N", kn2))
                 return out
+            if is_call(e, "Option::<T>::is_some") and any(inner_path(x) for x in walk(e)):
+                # the same test the other way round (`if src.inner.is_some() { return Ok(()) }` of an inlined helper)
+                for v, tb in t["targets"]:
+                    if v == 0 and slot != "S":
+                        out.append((tb, failed, "N", kn2))
+                if slot != "N":
+                    out.append((t["else"], failed, "S", kn2))
+                return out
             if (bb, t) in [(x, y) for x, y in timeouts]:
                 for v, tb in t["targets"]:
                     out.append((tb, failed or v == 1, slot, kn2))
@@ -241,6 +251,8 @@ def retry(chk, crate):
     # connect only when no live connection, and only its Ok value is stored
     cc = f.calls(lambda n_, t: n_ == "zvt_feig_terminal::stream::outer::inner::connect")
     tests = f.bool_switches(lambda e: is_call(e, "Option::<T>::is_none") and any(inner_path(x) for x in walk(e)))
+    for sbb, sx, st_, sf_ in f.bool_switches(lambda e: is_call(e, "Option::<T>::is_some") and any(inner_path(x) for x in walk(e))):
+        tests.append((sbb, sx, sf_, st_))       # is_some: the "no connection" edge is the false edge
     # the same test spelled as a match on the slot: `match src.inner.as_mut() { Some(t) => .., None => <connect> }`
     from client import option_switches
     def is_slot(x):
